@@ -77,7 +77,7 @@ type rMove struct { // adversary move
 	About  int // ack: 0 itself, 1 other byz, 2 an honest party, 3 the receiver, 4 outsider id, 5 the sender of payload Ref
 	Ref    int // ack: index into the payloads transmitted so far (sender, round, digest are copied from it)
 	AboutI int
-	Digest int // ack digest: 0 payload in play (Body), 1 never sent, 2 random bytes, 3 short
+	Digest int // ack digest: 0 payload in play (Ref), 1 never sent, 2 random 32 bytes, 3 short (1..7 bytes), 4 long (33..40)
 	Replay int // replay: index into the log
 }
 
@@ -269,7 +269,7 @@ func genRCase(byzantine bool, maxN int) func(t *rapid.T) rCase {
 					Body:   rapid.IntRange(0, 2).Draw(t, "body"),
 					About:  rapid.SampledFrom([]int{5, 5, 5, 5, 5, 5, 0, 1, 2, 3, 4}).Draw(t, "about"),
 					AboutI: rapid.IntRange(0, 4).Draw(t, "aboutI"),
-					Digest: rapid.SampledFrom([]int{0, 0, 0, 0, 0, 0, 1, 2}).Draw(t, "digest"),
+					Digest: rapid.SampledFrom([]int{0, 0, 0, 0, 0, 0, 1, 2, 3, 4}).Draw(t, "digest"),
 					Ref:    rapid.IntRange(0, 30).Draw(t, "ref"),
 					Replay: rapid.IntRange(0, 200).Draw(t, "replay"),
 				})
@@ -437,6 +437,10 @@ func runRCase(prop string) func(c rCase) *vh.Outcome {
 						dg = refDigest
 					case 1:
 						dg = rPayload{Round: uint8(m.Round), Bcast: true, Body: "never-sent"}.digest()
+					case 3: // short digest (the wire format allows any length >= 1)
+						dg = make([]byte, 1+m.Replay%7)
+					case 4:
+						dg = make([]byte, 33+m.Replay%8)
 					default:
 						dg = make([]byte, 32)
 						for i := range dg {
